@@ -9,7 +9,9 @@ import (
 	"sort"
 	"strings"
 
+	forwarder "github.com/saucelabs/forwarder"
 	"github.com/saucelabs/forwarder/ruleset"
+	"golang.org/x/net/idna"
 )
 
 func init() {
@@ -22,6 +24,34 @@ var c17BaseRules = []string{
 	`.*\.example\.com`, `x|`, `^$`, `(?i:baz)`, `qux(?i)`,
 	`A`, `(?i:a)[^a]$`, // alternation factoring in regexp/syntax loses the fold flag when these are joined
 	`^bar$`, `^example\.com$`, `\Afoo\z`, // fully anchored plain literals (LiteralPrefix reports them "complete")
+	`^www\.`, `^xn--`, `\.example$`, // rules that tell the spellings of one host apart
+}
+
+// c17Names: hosts as a client may write them. The proxy asks a rule list about every spelling of the host (matchHost).
+var c17Names = []string{"WWW.EXAMPLE.COM", "www.example.com", "b\u00fccher.example", "B\u00dcCHER.Example", "Bar.com", "foo"}
+
+// c17Spellings: as written, ASCII letters in lower case, the ASCII form that is dialled.
+func c17Spellings(n string) []string {
+	lower := strings.Map(func(r rune) rune {
+		if 'A' <= r && r <= 'Z' {
+			return r + 'a' - 'A'
+		}
+		return r
+	}, n)
+	out := []string{n}
+	add := func(s string) {
+		for _, o := range out {
+			if o == s {
+				return
+			}
+		}
+		out = append(out, s)
+	}
+	add(lower)
+	if a, err := idna.Lookup.ToASCII(lower); err == nil {
+		add(a)
+	}
+	return out
 }
 
 var c17BaseHosts = []string{
@@ -63,7 +93,26 @@ func c17GenRegexp(r *rand.Rand, depth int) string {
 	return sb.String()
 }
 
+// c17Pool: the rules and hosts of a pool; every spelling of every name is among the hosts.
 func c17Pool(seed int64, pool int) (rules, hosts []string) {
+	rules, hosts = c17Pool0(seed, pool)
+	hosts = append([]string{}, hosts...)
+	for _, n := range c17Names {
+		for _, sp := range c17Spellings(n) {
+			found := false
+			for _, h := range hosts {
+				found = found || h == sp
+			}
+			if !found {
+				hosts = append(hosts, sp)
+			}
+		}
+	}
+	sort.Strings(hosts)
+	return rules, hosts
+}
+
+func c17Pool0(seed int64, pool int) (rules, hosts []string) {
 	if pool == 0 {
 		return c17BaseRules, c17BaseHosts
 	}
@@ -115,6 +164,20 @@ func c17Table(e *env) {
 	if err := os.WriteFile(e.args["mfile"], b, 0o644); err != nil {
 		fatal("%v", err)
 	}
+	sp := map[string][]string{}
+	for k, n := range c17Names {
+		for _, s := range c17Spellings(n) {
+			for j, h := range hosts {
+				if h == s {
+					sp[fmt.Sprintf("n%d", k)] = append(sp[fmt.Sprintf("n%d", k)], fmt.Sprintf("h%d", j))
+				}
+			}
+		}
+	}
+	b, _ = json.Marshal(sp)
+	if err := os.WriteFile(e.args["sfile"], b, 0o644); err != nil {
+		fatal("%v", err)
+	}
 	e.emit(map[string]any{"rules": rules, "hosts": hosts})
 }
 
@@ -128,7 +191,8 @@ func c17Run(e *env) {
 				R string `json:"r"`
 				X bool   `json:"x"`
 			} `json:"list"`
-			Match map[string]bool `json:"match"`
+			Match     map[string]bool `json:"match"`
+			MatchName map[string]bool `json:"matchName"`
 		}
 		if err := json.Unmarshal(raw, &c); err != nil {
 			fatal("bad case: %v", err)
@@ -177,6 +241,20 @@ func c17Run(e *env) {
 			if inv.Inverse().Match(h) != want {
 				res["ok"], res["why"], res["host"] = false, "double inverse differs", h
 				break
+			}
+		}
+		// the list asked the way the proxy asks it: about a host under all its spellings
+		for nk, want := range c.MatchName {
+			if res["ok"] != true {
+				break
+			}
+			var k int
+			fmt.Sscanf(nk, "n%d", &k)
+			n := c17Names[k]
+			if got := forwarder.VerifMatchHost(m, n); got != want {
+				res["ok"], res["why"], res["host"], res["want"] = false, fmt.Sprintf("the list asked about the host %q (spellings %q) says %v: per-rule evaluation over the spellings differs", n, c17Spellings(n), got), n, want
+			} else if got := forwarder.VerifMatchHost(inv, n); got != !want {
+				res["ok"], res["why"], res["host"], res["want"] = false, fmt.Sprintf("the inverse list asked about the host %q says %v: not the negation", n, got), n, want
 			}
 		}
 		res["nt"] = nt && len(c.List) > 1
